@@ -226,6 +226,31 @@ func runC04History(r *mon.Run, stream uint64) {
 			}
 		}
 	}
+	// blocks the node already applied are delivered once more through the
+	// pre-validated path (overlapping sync batches): nothing may change, and
+	// subscribers that still have to cross those blocks - a fresh one starting
+	// from nothing among them - must still be able to
+	if a.Tip.Height > p.Require+1 {
+		path := a.Tip.PathFromGenesis()
+		var known []*chainlab.Node
+		for _, n := range path {
+			if n.Height > p.Require && n.Block.V2 != nil {
+				known = append(known, n)
+			}
+		}
+		if len(known) > 0 {
+			k := 1 + rng.IntN(min(6, len(known)))
+			start := rng.IntN(len(known) - k + 1)
+			if err, fs := a.SubmitValidated(known[start : start+k]); err != chainlab.ErrNoState {
+				if len(fs) > 0 {
+					reportFindings(r, chainCase{Kind: "c04-validated-redelivery", Stream: stream, Params: p}, t, a, fs)
+					return
+				}
+				r.Count("applied_blocks_redelivered_prevalidated", 1)
+				subs = append(subs, &subscriber{id: len(subs), chunk: []int{1, 3, 1000}[rng.IntN(3)], f: chainlab.NewFollower()})
+			}
+		}
+	}
 	// quiescence: everyone polls to completion within the progress bound
 	for _, s := range subs {
 		// distance = reverts to the fork point + applies to the tip
@@ -424,12 +449,17 @@ func runC04Concurrent(r *mon.Run, stream uint64) {
 	hmu.Unlock()
 	res, _ := porcupine.CheckOperationsVerbose(c04Model, h, 60*time.Second)
 	r.Count("porcupine_operations", len(h))
-	r.Count("porcupine_histories", 1)
 	switch res {
 	case porcupine.Illegal:
+		r.Count("porcupine_histories", 1)
 		r.Violation("poll-not-linearizable", "a poll reported reaching an index as the tip that was not the tip at any moment during the call", cs, fmt.Sprintf("%d operations", len(h)))
 	case porcupine.Unknown:
-		r.Inconclusive("porcupine timed out on a C04 history")
+		// the checker ran out of time (loaded machine, long history): no verdict
+		// for this history; the floor on decided histories guards the run
+		r.Count("porcupine_histories_undecided_timeout", 1)
+		r.Undecided(fmt.Sprintf("porcupine timed out on C04 history %d (%d operations)", stream, len(h)))
+	default:
+		r.Count("porcupine_histories", 1)
 	}
 	r.Eval()
 	r.SetAdd("concurrent_interleavings", fmt.Sprintf("%d/%d/%d", stream, len(h), tipChanges))
@@ -477,6 +507,7 @@ func runC04(r *mon.Run, replay string) {
 	}
 	wg.Wait()
 	r.Floor("polls_returning_more_than_64_updates", 50)
+	r.Floor("applied_blocks_redelivered_prevalidated", 20)
 	r.Floor("polls_reverting_more_than_64_blocks", 5)
 	r.Floor("polls_with_reverts", 100)
 	r.Floor("ledger_comparisons", 500)
